@@ -43,7 +43,7 @@ def _cstr8(s):
 
 
 # the sample_type in force (module-level so that every record writer and build() agree); set_layout() switches it for one file
-_layout = {"sample_type": SAMPLE_TYPE, "task_event": None, "id_all": True}
+_layout = {"sample_type": SAMPLE_TYPE, "task_event": None, "id_all": True, "event": "cpu-clock"}
 
 
 def set_layout(cpu=True, period=True, ip=True, callchain=True):
@@ -60,6 +60,13 @@ def set_layout(cpu=True, period=True, ip=True, callchain=True):
     _layout["sample_type"] = st
     _layout["task_event"] = None
     _layout["id_all"] = True
+    _layout["event"] = "cpu-clock"
+
+
+def set_event(kind):
+    """the main event: "cpu-clock" (software, time based) or "cycles" (hardware, a fixed period in events - `perf record -e cycles -c N`; the sampling is
+    then not time based)"""
+    _layout["event"] = kind
 
 
 def set_id_all(flag):
@@ -147,9 +154,9 @@ def finished_round():
 def build(records, arch="x86_64", first_time=None, last_time=None, period=1000000, context_switch=False):
     """records: list of bytes.  Returns the file contents."""
     attr = struct.pack("<IIQQQQQIIQQQQIIQIHH",
-                       1,                # type = PERF_TYPE_SOFTWARE
+                       1 if _layout["event"] == "cpu-clock" else 0,   # type = PERF_TYPE_SOFTWARE | PERF_TYPE_HARDWARE
                        112,              # size (VER5)
-                       0,                # config = PERF_COUNT_SW_CPU_CLOCK
+                       0,                # config = PERF_COUNT_SW_CPU_CLOCK | PERF_COUNT_HW_CPU_CYCLES
                        period,           # sample_period
                        _layout["sample_type"],
                        0,                # read_format
